@@ -82,7 +82,8 @@ int main(int argc, char** argv) {
 			int const vk_ = int(g.below(5)); static char const* VN[] = {"whole()", "rotated", "block", "strided", "transposed"};
 			std::string const K = std::string("C17:view:") + AK[ak] + ":" + VN[vk_] + ":"; describe(std::string("view of array<") + TN + "," + std::to_string(D) + "> " + AK[ak] + " extents=" + join(e, "x") + " view=" + VN[vk_]); sig_mix(K.c_str()); nontrivial(A.num_elements() >= 2);
 			MV root = MV::root(e); MV vm; std::string s;
-			auto with_v = [&](auto& X, auto&& f) { switch(vk_) { case 1: vm = m_rotated(root); f(X.rotated()); break; case 2: { L b1 = e[0] >= 2 ? 1 : 0; vm = m_sliced(root, b1, e[0]); f(X.sliced(b1, e[0])); break; } case 3: if(e[0] % 2 == 0) { vm = m_strided(root, 2); f(X.strided(2)); break; } vm = root; f(X()); break; case 4: if constexpr(D >= 2) { vm = m_transposed(root); f(X.transposed()); break; } [[fallthrough]]; default: vm = root; f(X()); break; } };
+			bool const rbv = D >= 2 && g.chance(1, 3); L const rb0 = g.in(-2, 3), rb1 = g.in(1, 3); if(rbv) { count("re-based-views"); describe(" (view re-based)"); }  // the same views with first indices other than 0 in the first two dimensions: the same elements in the same order
+			auto with_v = [&](auto& X, auto&& f0) { auto f = [&](auto&& vv) { if constexpr(D >= 2) { if(rbv) { f0(std::forward<decltype(vv)>(vv).reindexed(rb0, rb1)); return; } } f0(std::forward<decltype(vv)>(vv)); }; switch(vk_) { case 1: vm = m_rotated(root); f(X.rotated()); break; case 2: { L b1 = e[0] >= 2 ? 1 : 0; vm = m_sliced(root, b1, e[0]); f(X.sliced(b1, e[0])); break; } case 3: if(e[0] % 2 == 0) { vm = m_strided(root, 2); f(X.strided(2)); break; } vm = root; f(X()); break; case 4: if constexpr(D >= 2) { vm = m_transposed(root); f(X.transposed()); break; } [[fallthrough]]; default: vm = root; f(X()); break; } };
 			op((std::string("save-view:") + AK[ak]).c_str()); with_v(A, [&](auto&& v) { s = save(ak, v); });
 			Arr W(make_extensions<D>(e)); for(L k = 0; k < W.num_elements(); ++k) W.data_elements()[k] = mk(5000 + k); Arr const W0 = W;
 			op((std::string("load-view:") + AK[ak]).c_str()); with_v(W, [&](auto&& w) { load(ak, s, w); });
